@@ -10,6 +10,8 @@ Proof. reflexivity. Qed.
 Lemma embed_SIf names k c t e : embed_stmt names k (SIf c t e) =
   NIf (embed names c) (embed_stmts names k t) (Some (embed_stmts names k e)).
 Proof. reflexivity. Qed.
+Lemma embed_SIf1 names k c t : embed_stmt names k (SIf1 c t) = NIf (embed names c) (embed_stmts names k t) None.
+Proof. reflexivity. Qed.
 Lemma embed_SWhile names k c b : embed_stmt names k (SWhile c b) =
   NFor (Some (embed names c)) None None (embed_stmts names k b).
 Proof. reflexivity. Qed.
@@ -17,6 +19,8 @@ Proof. reflexivity. Qed.
 Lemma wf_stmts_cons top k s r : wf_stmts top k (s :: r) = wf_stmt top k s && wf_stmts top (next_k k s) r.
 Proof. reflexivity. Qed.
 Lemma wf_SIf top k c t e : wf_stmt top k (SIf c t e) = wf k c && wf_stmts false k t && wf_stmts false k e.
+Proof. reflexivity. Qed.
+Lemma wf_SIf1 top k c t : wf_stmt top k (SIf1 c t) = wf k c && wf_stmts false k t.
 Proof. reflexivity. Qed.
 Lemma wf_SWhile top k c b : wf_stmt top k (SWhile c b) = wf k c && wf_stmts false k b.
 Proof. reflexivity. Qed.
@@ -37,9 +41,13 @@ Lemma max_need_cons s r : max_need (s :: r) = Nat.max (sneed s) (max_need r).
 Proof. reflexivity. Qed.
 Lemma sheight_SIf c t e : sheight (SIf c t e) = S (Nat.max (height c) (Nat.max (max_height t) (max_height e))).
 Proof. reflexivity. Qed.
+Lemma sheight_SIf1 c b : sheight (SIf1 c b) = S (Nat.max (height c) (max_height b)).
+Proof. reflexivity. Qed.
 Lemma sheight_SWhile c b : sheight (SWhile c b) = S (Nat.max (height c) (max_height b)).
 Proof. reflexivity. Qed.
 Lemma sneed_SIf c t e : sneed (SIf c t e) = Nat.max (need c) (Nat.max (max_need t) (max_need e)).
+Proof. reflexivity. Qed.
+Lemma sneed_SIf1 c b : sneed (SIf1 c b) = Nat.max (need c) (max_need b).
 Proof. reflexivity. Qed.
 Lemma sneed_SWhile c b : sneed (SWhile c b) = Nat.max (need c) (max_need b).
 Proof. reflexivity. Qed.
@@ -49,8 +57,9 @@ Lemma max_need_pos l : 1 <= max_need l.
 Proof. induction l as [|s r IH]; [cbn; lia|rewrite max_need_cons; lia]. Qed.
 Lemma sneed_pos s : 1 <= sneed s.
 Proof.
-  destruct s as [e|i e|e|c t e|c b]; try (cbn [sneed]; apply need_pos).
+  destruct s as [e|i e|e|c t e|c t|c b]; try (cbn [sneed]; apply need_pos).
   - rewrite sneed_SIf. pose proof (need_pos c). lia.
+  - rewrite sneed_SIf1. pose proof (need_pos c). lia.
   - rewrite sneed_SWhile. pose proof (need_pos c). lia.
 Qed.
 
@@ -68,6 +77,12 @@ Proof. reflexivity. Qed.
 Lemma run_SIf n rho c t e : run_stmt (S n) rho (SIf c t e) =
   match sev rho c with
   | inl vc => run_stmts n rho (if struthy vc then t else e) VNil
+  | inr x => Some (inr x)
+  end.
+Proof. reflexivity. Qed.
+Lemma run_SIf1 n rho c t : run_stmt (S n) rho (SIf1 c t) =
+  match sev rho c with
+  | inl vc => if struthy vc then run_stmts n rho t VNil else Some (inl (rho, VNil))
   | inr x => Some (inr x)
   end.
 Proof. reflexivity. Qed.
@@ -101,6 +116,11 @@ Lemma code_SIf k base c t e : stmt_code k base (SIf c t e) =
   let '(ct, kt) := block_code k (base + length kc) t in
   let '(ce, ke) := block_code k (base + length kc + length kt) e in
   (cc ++ [opPopJumpForwardIfFalse; (nlenN ct + 4)%N] ++ ct ++ [opJumpForward; (nlenN ce + 2)%N] ++ ce, kc ++ kt ++ ke).
+Proof. reflexivity. Qed.
+Lemma code_SIf1 k base c t : stmt_code k base (SIf1 c t) =
+  let '(cc, kc) := cexp base c in
+  let '(ct, kt) := block_code k (base + length kc) t in
+  (cc ++ [opPopJumpForwardIfFalse; (nlenN ct + 4)%N] ++ ct ++ [opJumpForward; 3%N] ++ [opNil], kc ++ kt).
 Proof. reflexivity. Qed.
 Lemma code_SWhile k base c b : stmt_code k base (SWhile c b) =
   let '(cc, kc) := cexp base c in
@@ -137,7 +157,7 @@ Qed.
 Lemma run_stmt_length : forall n, length_ok n.
 Proof.
   induction n as [|n IH]; intros rho s top rho' v Hwf Hr; [discriminate|].
-  destruct s as [e|i e|e|c t e|c b].
+  destruct s as [e|i e|e|c t e|c t|c b].
   - cbn [run_stmt] in Hr. destruct (sev rho e); inversion Hr. rewrite app_length. cbn. lia.
   - cbn [run_stmt] in Hr. destruct (sev rho e); inversion Hr. apply set_nth_length.
   - cbn [run_stmt] in Hr. destruct (sev rho e); inversion Hr. reflexivity.
@@ -145,6 +165,9 @@ Proof.
     apply andb_true_iff in Hwct. destruct Hwct as [Hwc Hwt].
     rewrite run_SIf in Hr. destruct (sev rho c) as [vc|x]; [|discriminate]. cbn [next_k].
     destruct (struthy vc); [exact (run_list_length n IH t rho VNil rho' v Hwt Hr)|exact (run_list_length n IH e rho VNil rho' v Hwe Hr)].
+  - rewrite wf_SIf1 in Hwf. apply andb_true_iff in Hwf. destruct Hwf as [Hwc Hwt].
+    rewrite run_SIf1 in Hr. destruct (sev rho c) as [vc|x]; [|discriminate]. cbn [next_k].
+    destruct (struthy vc); [exact (run_list_length n IH t rho VNil rho' v Hwt Hr)|inversion Hr; reflexivity].
   - rewrite wf_SWhile in Hwf. apply andb_true_iff in Hwf. destruct Hwf as [Hwc Hwb].
     rewrite run_SWhile in Hr. destruct (sev rho c) as [vc|x]; [|discriminate]. cbn [next_k].
     destruct (struthy vc); [|inversion Hr; reflexivity].
@@ -163,7 +186,7 @@ Proof. apply run_list_length. apply run_stmt_length. Qed.
 Lemma run_stmt_value : forall n rho s rho' v, run_stmt n rho s = Some (inl (rho', v)) -> is_expr_stmt s = false -> v = VNil.
 Proof.
   induction n as [|n IH]; intros rho s rho' v Hr Hx; [discriminate|].
-  destruct s as [e|i e|e|c t e|c b]; try discriminate.
+  destruct s as [e|i e|e|c t e|c t|c b]; try discriminate.
   - cbn [run_stmt] in Hr. destruct (sev rho e); inversion Hr. reflexivity.
   - cbn [run_stmt] in Hr. destruct (sev rho e); inversion Hr. reflexivity.
   - rewrite run_SWhile in Hr. destruct (sev rho c) as [vc|x]; [|discriminate].
